@@ -92,11 +92,18 @@ def build(segs, d, sep, gap):
     return "\n".join(out), rows
 
 
-def evaluate(segs, d, sep, gap, chain):
+def evaluate(segs, d, sep, gap, chain, disturb=False):
     from pycaption import SCCReader
 
     doc, rows = build(segs, d, sep, gap)
     v = []
+    if disturb:
+        # reuse runs only: the shared reader first reads the document with non-default options (result ignored); with a
+        # new reader per call this has no effect on the read that is judged
+        try:
+            shared.obj(SCCReader).read(doc, offset=20, simulate_roll_up=True)
+        except Exception:  # noqa
+            pass
     try:
         cs = shared.obj(SCCReader).read(doc)
         caps = list(cs.get_captions("en-US"))
@@ -154,7 +161,7 @@ def reuse_items():
     for a in menu:
         for b in menu:
             items.append((relabel([a, b]), 1 + i % 2, ":;"[i % 2], GAPS[i % 3], False))
-            items.append((relabel([a]), 1 + i % 2, ":", GAPS[(i + 1) % 3], a[0] != "pop"))
+            items.append((relabel([a]), 1 + i % 2, ":", GAPS[(i + 1) % 3], a[0] != "pop", i % 3 == 0))
             i += 1
     return items
 
